@@ -435,6 +435,10 @@ func TestE2LogCrash(t *testing.T) {
 			continue
 		}
 		muts, err := ParseStrace(tracePath, live)
+		if keep := os.Getenv("VERIF_KEEP_TRACE"); keep != "" {
+			data, _ := os.ReadFile(tracePath)
+			os.WriteFile(fmt.Sprintf("%s/trace-%d-%d.txt", keep, os.Getpid(), sidx), append([]byte(strings.Join(script, " / ")+"\n"), data...), 0o644)
+		}
 		os.Remove(tracePath)
 		if err != nil {
 			t.Fatal(err)
